@@ -137,6 +137,9 @@ func (c *queueClass_[V]) Fork(
 	}
 
 	// Connect up the input queue to the output queues in a separate go-routine.
+	// The iterator is taken before the sequence of output queues is handed to
+	// the caller, who is free to change that sequence afterwards.
+	var iterator = outputs.GetIterator()
 	group.Add(1)
 	verifPoint(verifSpawn, input)
 	go func() {
@@ -144,7 +147,6 @@ func (c *queueClass_[V]) Fork(
 		defer group.Done()
 
 		// Write each value read from the input queue to each output queue.
-		var iterator = outputs.GetIterator()
 		for {
 			// Read from the input queue.
 			var value, ok = input.RemoveHead() // Will block when empty.
@@ -190,6 +192,9 @@ func (c *queueClass_[V]) Split(
 	}
 
 	// Connect up the input queue to the output queues.
+	// The iterator is taken before the sequence of output queues is handed to
+	// the caller, who is free to change that sequence afterwards.
+	var iterator = outputs.GetIterator()
 	group.Add(1)
 	verifPoint(verifSpawn, input)
 	go func() {
@@ -197,7 +202,6 @@ func (c *queueClass_[V]) Split(
 		defer group.Done()
 
 		// Take turns reading from the input queue and writing to each output queue.
-		var iterator = outputs.GetIterator()
 		for {
 			// Read from the input queue.
 			var value, ok = input.RemoveHead() // Will block when empty.
